@@ -20,6 +20,22 @@ CLAIMS = {
          "6.C05", "rxeq language VCs with capture/back-reference letters; pinned second specs for known findings"),
  "C07": ("other", "START-a/b/c, END, UNIT, ENTRY, CLOSED for every instruction-level and operand-level node class, and for whole compiled item-list rules; get_first_addr POST. Level 'other' because the register-family capture findings (optional comma) also break END at operand level and the shipped @any macro admits '|' (listed).",
          "6.C07", "rxeq START/END/UNIT VCs"),
+ "C06": ("other", "Compiler half proved for all inputs: PatternNodeDeref/DerefObjectBuilder/DerefObject on every present/absent combination (index and scale together), opaque components, opaque names and concrete representative names, times wrappers; language-equal to [a(+b*c)?(+k)?], with optional % / 0x, exact brackets, comma terminator. The parser half (operand normal form) and the joint lemma are C09's obligations; until those contract files exist this claim is level 'other' (compiler side only).",
+         "6.C06", "rxeq language equality of the real deref regex against the bracket-form specification"),
+ "C11": ("proof", "Loop invariant over the symbolic sequence M = finditer(rule, stream): addr_list = map(f, M[:k]), nothing else appended; first-match = search; exactly one engine call with (rule, whole stream); START/END of every instruction-level node (so the hits T-regex reports are record-aligned and non-overlapping). The scan properties themselves (leftmost, non-overlapping, complete) are T-regex, assumed.",
+         "6.C11", "T1 loop rule with explicit inductive invariant on the real do_match_all_findings + rxeq START/END VCs"),
+ "C12": ("proof", "MatchedObserver invariant matched <=> addr_list != []; POST of _do_matching_and_get_result for the 2x2x3 mode combinations: the value returned is a field of the one observer; FRAME: the engine call does not depend on return mode / address-only flag; first-match vs all-matches only selects search vs finditer.",
+         "6.C12", "symbolic execution of the real driver with the regex engine and producer replaced by their assumed contracts"),
+ "C14": ("other", "load_config proved to overwrite each of the five keys as a function of the current config (singleton pre-filled with sentinels = arbitrary history); keys read are a subset of keys written (static); capture table and objdump flag list allocated per operation; FRAME scan of process-global state. 'other' because the frame condition is a static scan plus a bounded history sweep (thorough tier), not a proof over all code paths.",
+         "6.C14", "POST over sentinel-initialised singleton + static frame scan + bounded history replay"),
+ "C15": ("proof", "argv = objdump -d -M att [-j s]* file for a symbolic section list (loop summarised by T1), stdout returned unchanged on exit status 0, every failure raises; both routes build the same parser/producer classes; process_file hands exactly the disassembly text to the parser. objdump itself is external (assumed).",
+         "6.C15", "symbolic execution with subprocess/Path replaced by stubs that enumerate every outcome"),
+ "C17": ("other", "Exceptional postconditions on the real functions for each wrongly-shaped input (symbolic integers for the bounds, enumerated YAML shapes), static scan that no handler swallows an exception, and every fault of the statement injected into a valid pair through the real entry point in a subprocess (fault enumeration, one representative pair per fault: bounded).",
+         "6.C17", "EXC obligations by symbolic execution + handler scan + fault injection through MasterOfPuppets"),
+ "C18": ("proof", "ValidAddrObserver.observe_instruction over symbolic hexadecimal bounds and targets (value = uninterpreted hexval, 0x stripping executed by the real HexType): tagged iff direct branch mnemonic, hexadecimal target, min <= target <= max; call/jmp must be tagged when in range; everything else returned unchanged; observer installed iff the rule configures a range (reset otherwise).",
+         "6.C18", "z3 integer VCs on path conditions of the real observer"),
+ "C20": ("proof", "parse_args_from_console on every combination of the options (exhaustive over option presence: 144 command lines); main(): Namespace -> MatchConfig plumbing with opaque values for all 16 flag combinations, one perform_matching call, no try on the path to the interpreter; log records: one 'Matched address' INFO record per appended element (loop invariant) and 'RESULT: Pattern found' iff matched; default logger configuration.",
+         "6.C20", "symbolic execution of main with stubs + exhaustive argparse enumeration + ghost log invariants"),
 }
 TODO = {}
 checks = []
